@@ -88,7 +88,7 @@ def glob_to_regex_model(p):
 
 
 def plan(tier, seed):
-    k = 1 if tier == "quick" else 2
+    k = 2 if tier == "quick" else 3
     shards = []
     for mp in MODULE_PATHS:
         for importer in IMPORTERS:
@@ -99,7 +99,7 @@ def plan(tier, seed):
             for lo in range(0, len(combos), step):
                 shards.append({"mp": mp, "importer": importer, "k": k, "lo": lo, "hi": lo + step,
                                "pat_size": 2,
-                               "bound": f"statements<={k} patterns<=2"})
+                               "bound": f"statements<={k} patterns<=2" + (" (two statements: patterns<=1)" if tier == "quick" else "")})
     return {"shards": shards, "require_nonzero": ["config:excluded", "config:included", "config:glob", "config:regex",
                                                   "external-kept", "external-dropped"]}
 
@@ -185,7 +185,9 @@ def run_shard(shard, tier, seed):
             files[importer] = facts
             write_tree(base, {rel: source(fs) for rel, fs in files.items()})
             baseline = None
-            for label, opts, include, matcher in configs(files, mp, shard["pat_size"]):
+            # quick tier: pattern tuples of size 2 only together with single statements
+            pat_size = 1 if (tier == "quick" and len(combo) > 1) else shard["pat_size"]
+            for label, opts, include, matcher in configs(files, mp, pat_size):
                 v, obs = run_config(base, files, mp, opts, include, matcher, res, label)
                 res.stats[f"config:{label}"] += 1
                 if include and matcher:
